@@ -58,6 +58,19 @@ pub fn run_one(ctx: &Ctx, st: &mut Stats) -> bool {
 }
 
 pub fn replay(prop: &str, case: &Value, st: &mut Stats) -> bool {
+    if case.get("kind").and_then(|k| k.as_str()) == Some("primed") {
+        // the recorded primers first, then the judged case, in a fresh process
+        let prim: Vec<crate::primers::Primer> = case.get("primers").and_then(|p| p.as_array()).map(|a| a.iter().filter_map(crate::primers::Primer::from_json).collect()).unwrap_or_default();
+        let _ = crate::core::guard(|| {
+            for p in &prim {
+                crate::primers::run(p);
+            }
+        });
+        return match case.get("case") {
+            Some(c) => replay(prop, c, st),
+            None => false,
+        };
+    }
     if case.get("kind").and_then(|k| k.as_str()) == Some("history") {
         // the recorded steps, back to back, in a fresh process
         return match case.get("steps").and_then(|s| s.as_array()) {
